@@ -29,6 +29,9 @@ type c11Transport struct {
 	// messages are binary WebSocket messages (lengths below the buffer size: a message that fills the buffer
 	// exactly cannot be told from one that is too large and is reported as an error by design)
 	WS bool `json:",omitempty"`
+	// First: the garbage is the first thing the connection ever delivers (a connection that has just joined the
+	// session), the two genuine frames follow
+	First bool `json:",omitempty"`
 }
 
 type c11OneShotListener struct {
@@ -120,11 +123,17 @@ func c11TransportRun(t *testing.T, c c11Transport) error {
 		send := func(seq uint64, b byte) {
 			put(record(c11Encode(&obfs, &Frame{StreamID: 1, Seq: seq, Payload: []byte{b, b, b}})))
 		}
-		send(0, 'a')
-		synctest.Wait()
 		garbage := make([]byte, c.Len)
 		vFill(garbage, uint64(c.Len)*977+uint64(c.Method), 0)
-		put(record(garbage))
+		if c.First {
+			put(record(garbage))
+			synctest.Wait()
+			send(0, 'a')
+		} else {
+			send(0, 'a')
+			synctest.Wait()
+			put(record(garbage))
+		}
 		synctest.Wait()
 		send(1, 'b')
 		synctest.Wait()
@@ -139,7 +148,7 @@ func c11TransportRun(t *testing.T, c c11Transport) error {
 		select {
 		case st = <-sesh.acceptCh:
 		default:
-			verr = vk.Violatef("the genuine frame sent before the garbage record did not open its stream")
+			verr = vk.Violatef("the first genuine frame did not open its stream (garbage first on the connection: %v)", c.First)
 			return
 		}
 		buf := make([]byte, 16)
@@ -199,6 +208,14 @@ func TestVerif_C11_Transport(t *testing.T) {
 				}
 				vk.AddDistinct(prop, sub, k, 1, "method="+vMethodNames[m])
 				k++
+				c.First = true
+				if err := one(c); err != nil {
+					fail(c, err)
+					return
+				}
+				vk.AddDistinct(prop, sub, k, 1, "garbage-first-on-a-fresh-connection")
+				k++
+				c.First = n%2 == 1
 				if n < bufSize {
 					c.WS = true
 					if err := one(c); err != nil {
